@@ -28,7 +28,7 @@ CHECKS = {
               "1.6e5 (thorough) calls."),
         ref="DESIGN.md section 5 / C02", category="exploration"),
     "C03": dict(
-        technique="runtime monitoring: class invariant + pose model after every step of enumerated and random histories",
+        technique="runtime monitoring: class invariant + pose model after every step of enumerated and random histories; thorough also runs the repository's own test-suite under the same invariant as a pre/post contract",
         text=("A register machine drives real tm objects through every operation sequence up to length 3 over a "
               "77-operation alphabet on the property's value palette (thorough: exhaustive, 4.6e5 sequences; quick: "
               "length <= 2 exhaustive + sampled length 3) and through random histories of length <= 12; after a "
@@ -44,7 +44,7 @@ CHECKS = {
               "classes included."),
         ref="DESIGN.md section 5 / C04"),
     "C05": dict(
-        technique="runtime monitoring: reference model in lock-step over operation histories, state read after every step",
+        technique="runtime monitoring: reference model in lock-step over operation histories, state read after every step; thorough also runs the repository's own test-suite under an Arm coherence contract",
         text=("Real Arm objects (5 bundled URDFs, the 6R test arm, random 1..7-joint chains; built at a base or at "
               "identity then moved) are driven through generated histories of length <= 10 over {FK, IK both paths, "
               "move, move(stationary), setArbitraryHome, restoreOriginalEE, randomPos} next to an independent "
@@ -86,7 +86,7 @@ CHECKS = {
               "pose accepted without corrective action the FK round trip with both solvers from the neutral pose (1e-3 h)."),
         ref="DESIGN.md section 5 / C09"),
     "C10": dict(
-        technique="runtime monitoring: class invariants after every call of generated operation histories with out-of-workspace faults",
+        technique="runtime monitoring: class invariants after every call of generated operation histories with out-of-workspace faults; thorough also runs the repository's own test-suite under an SP coherence contract",
         text=("320 (quick) / 6e3 (thorough) histories of up to 25 operations (IK in/out of workspace, FK in/out of stroke with both "
               "solvers and reversed, move, spinCustom, validate, Jacobian/force queries, randomPos) under all 16 validation-switch "
               "subsets; after every call the published plates, joints, lengths and relative transform are checked for coherence "
@@ -117,7 +117,7 @@ CHECKS = {
         ref="DESIGN.md section 5 / C13"),
     "C14": dict(
         technique="runtime monitoring: byte/identity/memory-extent fingerprints of operands around every catalogued operation, "
-                  "np.shares_memory alias check, result-mutation probe, __defaults__ scanner",
+                  "np.shares_memory alias check, result-mutation probe, __defaults__ scanner; thorough also runs the repository's own test-suite under the operand-fingerprint contract",
         text=("4.8e4 (quick) / 4.8e6 (thorough) applications of ~100 catalogued operations (tm/Screw/Wrench operators in both operand "
               "positions, inv, copies, get-accessors, frame/distance/midpoint/gap/path helpers, Arm and SP constructors followed by "
               "use, every function of the Modern Robotics port): operands are fingerprinted before and after, results of operators, "
